@@ -230,25 +230,29 @@ pub fn check_symbol(q: &QRCode, input: &[u8], o: &Opts) -> Vec<Finding> {
         out.push(f("C02", "syndromes", format!("v{} level {}: block {} of {} (Table 9 layout, standard interleave) has non-zero syndromes", v, e, bi, d.blocks.len())));
     }
 
-    // ---- C01: full reference decode with error correction
-    let mut seg_raw = None;
-    match &d.data_corrected {
-        None => out.push(f("C01", "uncorrectable", format!("v{} level {} mask {}: some block is not decodable by a standard RS decoder", v, e, k))),
-        Some(data) => match r::parse_segment(data, v) {
-            Err(msg) => out.push(f("C01", "segment", msg)),
-            Ok(seg) => {
-                if seg.payload != input {
-                    let p = seg.payload.iter().zip(input.iter()).position(|(a, b)| a != b);
-                    out.push(f("C01", "payload", format!("decoded payload differs from input (decoded len {}, input len {}, first difference at {:?})", seg.payload.len(), input.len(), p)));
-                } else if !seg.terminated {
-                    out.push(f("C01", "not-single-segment", "segment is not followed by a terminator: further segments would be decoded".to_string()));
-                }
+    // ---- C01: the reference decoding procedure as the statement lists it (format information, unmasking,
+    // codeword read-out, de-interleaving, segment parsing): the data codewords are taken as read, without
+    // leaning on error correction; whether RS decoding would have repaired them is reported as a diagnostic
+    let repairable = match &d.data_corrected {
+        Some(c) => r::parse_segment(c, v).map_or(false, |s| s.payload == input),
+        None => false,
+    };
+    let note = if repairable { " (a Reed-Solomon decoder would still recover the payload: the symbol leans on its error correction)" } else { "" };
+    let seg_raw = match r::parse_segment(&d.data_raw, v) {
+        Err(msg) => {
+            out.push(f("C01", "segment", format!("v{} level {} mask {}: {}{}", v, e, k, msg, note)));
+            None
+        }
+        Ok(seg) => {
+            if seg.payload != input {
+                let p = seg.payload.iter().zip(input.iter()).position(|(a, b)| a != b);
+                out.push(f("C01", "payload", format!("v{} level {} mask {}: decoded payload differs from input (decoded len {}, input len {}, first difference at {:?}){}", v, e, k, seg.payload.len(), input.len(), p, note)));
+            } else if !seg.terminated {
+                out.push(f("C01", "not-single-segment", "segment is not followed by a terminator: further segments would be decoded".to_string()));
             }
-        },
-    }
-    if let Ok(seg) = r::parse_segment(&d.data_raw, v) {
-        seg_raw = Some(seg);
-    }
+            Some(seg)
+        }
+    };
 
     // mode physically encoded
     let mode_sym = r::get_bits(&d.data_raw, 0, 4).and_then(|mi| match mi {
